@@ -32,6 +32,7 @@ type gadget struct {
 	Name string
 	Code func(off int) []byte // off = byte offset of the gadget inside the runtime code (for jump targets)
 	Term bool                 // terminates execution
+	Ext  bool                 // extended alphabet: takes part in programs of length <= 2 only
 }
 
 func hx2(s string) []byte { b, _ := hex.DecodeString(clean(s)); return b }
@@ -68,38 +69,44 @@ func c17Gadgets() []gadget {
 	}
 	fixed := func(b []byte) func(int) []byte { return func(int) []byte { return b } }
 	return []gadget{
-		{"sstore(0,7)", fixed(hx2("6007600055")), false},
-		{"slot0++", fixed(hx2("600054600101600055")), false},
-		{"log1", fixed(hx2("60aa60006000a1")), false},
-		{"balance(U1)->slot1", fixed(append(append(push20(u1), 0x31), hx2("600155")...)), false},
-		{"call U1 value 1", fixed(callTo(u1, 1, 0xffff)), false},
-		{"call H value 1", fixed(callTo(helper, 1, 0xffff)), false},
-		{"call R (reverts)", fixed(callTo(reverter, 0, 0xffff)), false},
-		{"call R value 1 (reverts)", fixed(callTo(reverter, 1, 0xffff)), false},
-		{"call B (BALANCE of a never-seen account, then revert)", fixed(callTo(peekRevert, 0, 0xffff)), false},
-		{"call K value 0 (K reverts)", fixed(callTo(picky, 0, 0xffff)), false},
-		{"call K value 1 (K accepts)", fixed(callTo(picky, 1, 0xffff)), false},
+		{"sstore(0,7)", fixed(hx2("6007600055")), false, false},
+		{"slot0++", fixed(hx2("600054600101600055")), false, false},
+		{"log1", fixed(hx2("60aa60006000a1")), false, false},
+		{"balance(U1)->slot1", fixed(append(append(push20(u1), 0x31), hx2("600155")...)), false, false},
+		{"call U1 value 1", fixed(callTo(u1, 1, 0xffff)), false, false},
+		{"call H value 1", fixed(callTo(helper, 1, 0xffff)), false, false},
+		{"call R (reverts)", fixed(callTo(reverter, 0, 0xffff)), false, false},
+		{"call R value 1 (reverts)", fixed(callTo(reverter, 1, 0xffff)), false, false},
+		{"call B (BALANCE of a never-seen account, then revert)", fixed(callTo(peekRevert, 0, 0xffff)), false, false},
+		{"call K value 0 (K reverts)", fixed(callTo(picky, 0, 0xffff)), false, false},
+		{"call K value 1 (K accepts)", fixed(callTo(picky, 1, 0xffff)), false, false},
 		{"call self gas 3000", func(int) []byte {
 			return append(append(hx2("6000 6000 6000 6000 6000 30"), 0x61, 0x0b, 0xb8), 0xf1, 0x50)
-		}, false},
-		{"create child", fixed(create(0xf0, false)), false},
-		{"create2 child", fixed(create(0xf5, true)), false},
-		{"callvalue->slot2", fixed(hx2("34600255")), false},
-		{"selfbalance->slot3", fixed(hx2("47600355")), false},
+		}, false, false},
+		{"create child", fixed(create(0xf0, false)), false, false},
+		{"create2 child", fixed(create(0xf5, true)), false, false},
+		{"callvalue->slot2", fixed(hx2("34600255")), false, false},
+		{"selfbalance->slot3", fixed(hx2("47600355")), false, false},
 		{"burn loop", func(off int) []byte {
 			// PUSH1 20 JUMPDEST PUSH1 1 SWAP1 SUB DUP1 PUSH1 dest JUMPI POP
 			dest := byte(off + 2)
 			return []byte{0x60, 20, 0x5b, 0x60, 1, 0x90, 0x03, 0x80, 0x60, dest, 0x57, 0x50}
-		}, false},
-		{"balance(new addr)->slot4", fixed(append(append(push20(sim.W("fresh-untouched").Addr), 0x31), hx2("600455")...)), false},
+		}, false, false},
+		{"balance(new addr)->slot4", fixed(append(append(push20(sim.W("fresh-untouched").Addr), 0x31), hx2("600455")...)), false, false},
 		// the block and transaction context the contract sees: COINBASE NUMBER TIMESTAMP GASLIMIT CHAINID BASEFEE GASPRICE ORIGIN -> slots 5..12
-		{"block context->slots 5..12", fixed(hx2("41600555 43600655 42600755 45600855 46600955 48600a55 3a600b55 32600c55")), false},
-		{"call COINBASE value 1", fixed(hx2("6000 6000 6000 6000 6001 41 61ffff f1 50")), false},
-		{"return 0x2a", fixed(hx2("602a60005260206000f3")), true},
-		{"revert 1 byte", fixed(hx2("60016000fd")), true},
-		{"selfdestruct->U1", fixed(append(push20(u1), 0xff)), true},
-		{"selfdestruct->caller", fixed(hx2("33ff")), true},
-		{"selfdestruct->itself (burn)", fixed(hx2("30ff")), true},
+		{"block context->slots 5..12", fixed(hx2("41600555 43600655 42600755 45600855 46600955 48600a55 3a600b55 32600c55")), false, false},
+		{"call COINBASE value 1", fixed(hx2("6000 6000 6000 6000 6001 41 61ffff f1 50")), false, false},
+		// extended alphabet (programs of length <= 2): code introspection of a contract and of native accounts, the two
+		// call kinds that run foreign code on this contract's storage / read-only, value sent to a precompile address
+		{Name: "extcodesize(H)->slot13, extcodehash(U1)->slot14, extcodehash(never-seen)->slot15", Code: fixed(append(append(append(append(append(push20(helper), 0x3b), hx2("600d55")...), append(append(push20(u1), 0x3f), hx2("600e55")...)...), append(push20(sim.W("fresh-untouched").Addr), 0x3f)...), hx2("600f55")...)), Ext: true},
+		{Name: "delegatecall H (its counter code on this storage)", Code: fixed(append(append(hx2("6000 6000 6000 6000"), push20(helper)...), hx2("61ffff f4 50")...)), Ext: true},
+		{Name: "staticcall H (writes: must fail inside)", Code: fixed(append(append(hx2("6000 6000 6000 6000"), push20(helper)...), hx2("61ffff fa 50")...)), Ext: true},
+		{Name: "call precompile#2 value 1", Code: fixed(callTo(append(make([]byte, 19), 2), 1, 0xffff)), Ext: true},
+		{"return 0x2a", fixed(hx2("602a60005260206000f3")), true, false},
+		{"revert 1 byte", fixed(hx2("60016000fd")), true, false},
+		{"selfdestruct->U1", fixed(append(push20(u1), 0xff)), true, false},
+		{"selfdestruct->caller", fixed(hx2("33ff")), true, false},
+		{"selfdestruct->itself (burn)", fixed(hx2("30ff")), true, false},
 	}
 }
 
@@ -350,7 +357,7 @@ func init() { engine.Register("C17", func() engine.Check { return &c17{} }) }
 func (c *c17) ID() string { return "C17" }
 func (c *c17) Meta() engine.Meta {
 	m := modelMeta("exhaustive program enumeration (gadget sequences) x history family on the real application, lock-step differential execution against a reference EVM world",
-		"C17: contracts assembled from 25 gadgets (the block and transaction context COINBASE NUMBER TIMESTAMP GASLIMIT CHAINID BASEFEE GASPRICE ORIGIN -> storage, CALL with value to the COINBASE, SSTORE const, SLOAD+1, LOG1, BALANCE(EOA)->storage, BALANCE(never-seen address)->storage, CALL with value to an EOA / to another contract / to a reverting contract (with and without value) / to a contract that reads the BALANCE of a never-seen account and reverts / to a contract that reverts without value and accepts value / to itself with little gas, CREATE and CREATE2 of a child, CALLVALUE / SELFBALANCE -> storage, a gas-burning loop, RETURN data, REVERT data, SELFDESTRUCT to another account / to the caller / into itself (a burn by EVM definition)): ALL gadget sequences up to length 3 (quick) / 4 (thorough). Each program runs in 4 history families mixing: deployment with and without value, calls with and without value by two callers, a plain transfer to the contract, a plain transfer to a child the contract created, native transfers to and from the touched accounts before and after, staking by the caller, native credits landing BETWEEN two contract transactions of the same block that touch the credited account, blocks with and without proposer, and a vm_call query after every block. "+
+		"C17: contracts assembled from 29 gadgets (four of them - EXTCODESIZE / EXTCODEHASH of a contract, a native account and a never-seen account -> storage, DELEGATECALL and STATICCALL of another contract, CALL with value to a precompile - only in programs up to length 2; the block and transaction context COINBASE NUMBER TIMESTAMP GASLIMIT CHAINID BASEFEE GASPRICE ORIGIN -> storage, CALL with value to the COINBASE, SSTORE const, SLOAD+1, LOG1, BALANCE(EOA)->storage, BALANCE(never-seen address)->storage, CALL with value to an EOA / to another contract / to a reverting contract (with and without value) / to a contract that reads the BALANCE of a never-seen account and reverts / to a contract that reverts without value and accepts value / to itself with little gas, CREATE and CREATE2 of a child, CALLVALUE / SELFBALANCE -> storage, a gas-burning loop, RETURN data, REVERT data, SELFDESTRUCT to another account / to the caller / into itself (a burn by EVM definition)): ALL gadget sequences up to length 3 (quick) / 4 (thorough). Each program runs in 4 history families mixing: deployment with and without value, calls with and without value by two callers, a plain transfer to the contract, a plain transfer to a child the contract created, native transfers to and from the touched accounts before and after, staking by the caller, native credits landing BETWEEN two contract transactions of the same block that touch the credited account, blocks with and without proposer, and a vm_call query after every block. "+
 			"Oracle: mc/evmref = vanilla go-ethereum StateDB + core.ApplyMessage with the application's chain configuration and block context; balances and nonces are overwritten from the native-ledger model before every message and copied back after it. Compared per transaction: success/failure, return data (created address for deployments), gas used, logs; at every committed height: native balance and nonce of EVERY account of the reference world, contract code and storage of every contract (also children). A failing execution follows RIGO's own rule (no effect, no fee). vm_call: same result as a read-only reference call, and the complete state is unchanged by it.",
 		"go-ethereum's interpreter, StateDB and ApplyMessage are a dependency and trusted; what is judged is the repository's state-db wrapper and controller")
 	m.LevelName = "length of the gadget sequence"
@@ -385,6 +392,12 @@ func (c *c17) Prepare(tier string, seed int64) error {
 			return
 		}
 		for g := 0; g < ng; g++ {
+			if gs[g].Ext && len(cur) >= 2 {
+				continue // the extended alphabet takes part up to length 2
+			}
+			if len(cur) >= 2 && (gs[cur[0]].Ext || gs[cur[1]].Ext) {
+				continue
+			}
 			rec(append(cur, g))
 		}
 	}
